@@ -285,3 +285,19 @@ Proof.
     rewrite (parse_f64_point (c :: ip) fp Hne' Hi' Hf). reflexivity. }
   cbn [tokenize]. rewrite Hl. destruct f; reflexivity.
 Qed.
+
+(** ** eval_i64: a digit string of any length is exactly that integer, or Err when it exceeds i64::MAX -- end to end *)
+Theorem i64_literal_run (L : libm) (p : Z) ds :
+  ds <> [] -> forallb is_digit ds = true ->
+  run_i64 L ds p = match parse_i64 ds with Some z => Ok z | None => Err end.
+Proof.
+  intros Hne Hd. destruct (parse_i64 ds) as [z|] eqn:Hp.
+  - unfold run_i64, run, ast_of. rewrite (tokens_digits_i64 ds z Hne Hd Hp). reflexivity.
+  - unfold run_i64, run, ast_of, tokens_of, tokenize_all. rewrite (strip_digits ds Hd).
+    destruct ds as [|c cs]; [congruence|].
+    pose proof Hd as Hd'. cbn [forallb] in Hd'. apply andb_true_iff in Hd'. destruct Hd' as [Hc Hcs].
+    cbn [length tokenize]. unfold lex_step. rewrite Hc.
+    change (lt_mode lt_i64) with IntOnly. cbv iota. rewrite (span_all_digits cs Hcs).
+    unfold imag_tail. change (lt_imag_suffix lt_i64) with false. cbv iota.
+    change (conv_i64 (LNum (c :: cs) false)) with (parse_i64 (c :: cs)). rewrite Hp. reflexivity.
+Qed.
